@@ -462,8 +462,49 @@ struct BulkWorld : World
     if (!C->stop && ok)
       reads_ok({ Range{ 0, (size_t)off, (size_t)bytes } }, "range");
   }
+  // `long` is 8 bytes for the application and 4 for the guest: RLBox checks count*8 bytes and reads an 8-byte
+  // object at every 4-byte step.  What "the range given" means is ambiguous, so only memory safety and the
+  // provenance of what was delivered are judged.
+  void op_range_long(const Op& op)
+  {
+    bool null = op.a[0] == 1;
+    uint64_t off = ((uint64_t)op.a[1] & (S - 1)) & ~(uint64_t)7;
+    uint64_t count = (uint64_t)op.a[2];
+    auto p = ptr_at<long>(0, (int64_t)off, null);
+    uintptr_t a = (uintptr_t)p.UNSAFE_unverified();
+    bool fits_host = !null && count >= 1 && in_region(0, a, (unsigned __int128)count * 8);
+    bool fits_guest = !null && count >= 1 && in_region(0, a, (unsigned __int128)count * 4);
+    Expect e = count == 0 ? MUST_ABORT : null ? EITHER : fits_host ? MUST_PROCEED : fits_guest ? EITHER : MUST_ABORT;
+    Snap before = snap();
+    std::unique_ptr<long[]> got;
+    Outcome o = guarded([&] { got = p.copy_and_verify_range([&](std::unique_ptr<long[]> v) { return v; }, (size_t)count); });
+    C->ev("range<long> off=%llu count=%llu -> %s", (unsigned long long)off, (unsigned long long)count, oname(o));
+    C->probe("range_over_type_with_different_guest_width");
+    if (o == ALLOCFAIL && !fits_host)
+      return;
+    judge(e, o, "range_long", "copy_and_verify_range over long");
+    Snap after = snap();
+    if (!C->stop && diff_ok(before, after, {}, "range_long") && o == OK && got && !null) {
+      for (uint64_t i = 0; i < count && !C->stop; i++) {
+        if (off + 4 * i + 8 > S) {
+          C->violate("C10", "read_beyond_sandbox@range_long", "element %llu of %llu was read from bytes past the end of sandbox memory (value %lx)", (unsigned long long)i, (unsigned long long)count, got[i]);
+          break;
+        }
+        long want;
+        memcpy(&want, &before.reg[0][off + 4 * i], 8);
+        if (got[i] != want)
+          C->violate("C10", "request_not_carried_out@range_long", "element %llu does not equal the bytes at its guest-stride position", (unsigned long long)i);
+      }
+    }
+    if (!C->stop && fits_host)
+      reads_ok({ Range{ 0, (size_t)off, (size_t)count * 8 } }, "range_long");
+  }
   void op_range(const Op& op)
   {
+    if ((uint64_t)op.a[3] % 6 == 5) {
+      op_range_long(op);
+      return;
+    }
     switch ((int)((uint64_t)op.a[3] % 5)) {
       case 0:
         op_range_t<char>(op);
